@@ -108,7 +108,7 @@ def prepare(node, d):
         return d
     lt = node.logical
     if lt == "date":
-        if isinstance(d, datetime.date) and not isinstance(d, datetime.datetime):
+        if isinstance(d, datetime.date):  # a datetime is a date (Python subclassing)
             return days_from_civil(d.year, d.month, d.day)
         return d
     if lt == "time-millis":
